@@ -155,6 +155,29 @@ theorem valueOf_restrict (L : Layers ν) (keep : List String) (k : String)
       intro hm; exact hk (by simpa using h hm)
     rw [this]
 
+theorem valueOf_none_restrict (L : Layers ν) (keep : List String) (k : String)
+    (h : valueOf L k = none) : valueOf (L.restrict keep) k = none := by
+  have hd : L.data.lookup k = none := by
+    rw [valueOf_eq] at h
+    cases hx : L.data.lookup k with
+    | none => rfl
+    | some v => rw [hx] at h; cases h
+  rw [valueOf_restrict L keep k (fun hm => absurd hm ((lookup_none_iff_not_mem _ _).1 hd))]
+  exact h
+
+theorem valueOf_none_remove (L : Layers ν) (v k : String) (h : valueOf L k = none) :
+    valueOf (L.remove v) k = none := by
+  rw [valueOf_eq] at h ⊢
+  rw [remove_data_lookup]
+  have hc : contextItems (L.remove v) = contextItems L := rfl
+  have ht : (L.remove v).transforms = L.transforms := rfl
+  rw [hc, ht]
+  cases hx : L.data.lookup k with
+  | some x => rw [hx] at h; cases h
+  | none =>
+    rw [hx] at h
+    cases k == v <;> simpa using h
+
 theorem lookupAll_restrict (L : Layers ν) (keep : List String) (k : String)
     (h : k ∈ dataKeys L → k ∈ keep) : lookupAll (L.restrict keep) k = lookupAll L k := by
   simp only [lookupAll, valueOf_restrict L keep k h]; rfl
